@@ -141,7 +141,60 @@ def check(pm: ProgramModel, ctx: Ctx) -> None:
     ctx.floor(rule, "step evaluations", n_steps, 60)
 
 
+def with_constraints(pm: ProgramModel, ctx: Ctx, mb: ModelBuilder, entry: Any) -> None:
+    """Co-selection decided semantically: over all valid configurations (tree rules and constraints, all
+    2^n selections) two features of one set are always selected together."""
+    from ..exports import all_selections, model_names, model_valid
+    n_, o_ = mb.node, mb.op
+    shapes = {
+        "none": [],
+        "requires-between-optionals": [n_(o_("REQUIRES"), n_("B"), n_("C"))],
+        "equivalence": [n_(o_("EQUIVALENCE"), n_("B"), n_("C"))],
+        "literal": [n_("B")],
+        "negated-literal": [n_(o_("NOT"), n_("C"))],
+        "excludes": [n_(o_("EXCLUDES"), n_("B"), n_("G1"))],
+        "mutual-requires": [n_(o_("REQUIRES"), n_("B"), n_("C")), n_(o_("REQUIRES"), n_("C"), n_("B"))],
+    }
+    for sname, trees in shapes.items():
+        root = mb.feature("R")
+        m_, b_, c_ = mb.feature("M"), mb.feature("B"), mb.feature("C")
+        mb.relation(root, [m_], 1, 1)
+        mb.relation(root, [b_], 0, 1)
+        mb.relation(root, [c_], 0, 1)
+        mb.relation(m_, [mb.feature("G1"), mb.feature("G2")], 1, 2)
+        mb.relation(b_, [mb.feature("B1")], 1, 1)
+        fm = mb.model(root, [mb.constraint(f"k{i}", t) for i, t in enumerate(trees)])
+        try:
+            sets = Interp(pm).call(entry, [fm])
+        except AbsRaise as exc:
+            sets = ("raise", exc.what)
+        names = model_names(fm)
+        configs = [s_ for s_ in all_selections(names) if model_valid(fm, s_)]
+        bad = []
+        if not isinstance(sets, list):
+            bad.append(f"result is {str(sets)[:60]}")
+        else:
+            flat = [f._f["name"] for s_ in sets for f in s_]
+            if sorted(flat) != sorted(names):
+                bad.append(f"not a partition of the features: {sorted(flat)}")
+            for s_ in sets:
+                ns = [f._f["name"] for f in s_]
+                for cfg in configs:
+                    sel = [x in cfg for x in ns]
+                    if any(sel) and not all(sel):
+                        bad.append(f"{sorted(ns)} are in one set but configuration {sorted(cfg)} selects only some")
+                        break
+            if not any({"M", "R"} <= {f._f["name"] for f in s_} for s_ in sets):
+                bad.append("mandatory child M is not in the root's set")
+            if not any({"B", "B1"} <= {f._f["name"] for f in s_} for s_ in sets):
+                bad.append("mandatory child B1 is not in B's set")
+        ctx.check(not bad, "C15-SOUND-CTC", f"ctc:{sname}", loc(entry.unit.path, entry.node),
+                  f"with constraint shape '{sname}' the sets partition the features and are co-selected in all "
+                  f"{len(configs)} valid configurations", bad=f"constraint shape '{sname}': " + "; ".join(bad[:2]))
+
+
 def whole(pm: ProgramModel, ctx: Ctx, mb: ModelBuilder, entry: Any) -> None:
+    with_constraints(pm, ctx, mb, entry)
     """Whole function on abstract trees: partition, no empty set, sets connected through forced
     relations only, mandatory children with their parent."""
     from .c16 import TREES, build_tree
